@@ -11,7 +11,7 @@
     live sessions and their subscriptions, the registries hold exactly the sessions being served.
 """
 import vlib
-from checks import brokerlib, sessionlib
+from checks import brokerlib, racelib, sessionlib
 
 CAST = {
     "nodes": [1, 2], "ka": 10,
@@ -101,8 +101,15 @@ def check(run):
         raise vlib.Inconclusive("broker driver died: %s" % crashes[0][2][-2000:])
     v = vlib.Verdict(run)
     nev, nscn, validated, rejected, tstates = brokerlib.validate(run, "C11", scns, tpath, v)
+    # a SUBSCRIBE whose sender hangs up while its handler is parked half-way (before the subscription is registered / before the
+    # retained lookup): the session ends for cause and every trace of it goes, whatever the handler got done
+    rn, rparked, rnev, rval, rrej, rts = racelib.check_family(
+        run, "C11", v, keep=lambda s: any(o["op"] == "race" and o["a"]["op"] == "sub" and o["b"][0]["op"] == "close" for o in s["ops"]), tag="abort")
+    validated += rval
+    tstates += rts
     rc = v.finish()
     vlib.write_evidence(run, {
+        "aborted_subscribes": {"interleavings": rn, "parked_at_their_gate": rparked, "events": rnev, "rejections": rrej},
         "traces_validated_against_impl": validated,
         "evaluations": len(scns),
         "distinct_nontrivial": len(scns),
@@ -123,4 +130,7 @@ def check(run):
 
 
 def replay(run, path):
+    import json
+    if json.load(open(path)).get("kind") == "race":
+        return racelib.replay(run, "C11", path)
     return brokerlib.replay(run, "C11", path)
